@@ -66,12 +66,15 @@ def solve_continuum(kind, dim, elem, A, b, moves, dynamic=False):
     return u.reshape(-1, dim), float(W)
 
 
-def solve_beam(dim, elem, timo, A, b, dynamic=False):
+def solve_beam(dim, elem, timo, A, b, dynamic=False, form=None):
     from EasyFEA import Models, Simulations, Mesher, ElemType
     from EasyFEA.Geoms import Domain, Point, Line
 
+    form = form or {"yaxis": "perp", "load": "tip"}
     t0 = np.array([1.0, 0, 0])
     y0 = np.array([0, 1.0, 0])
+    if form["yaxis"] == "oblique":
+        y0 = y0 + 0.7 * t0  # in the plane (member, vertical), not perpendicular to the member: same orthonormal frame
     t, ny = A @ t0, A @ y0
     p0 = b.copy()
     with quiet():
@@ -89,7 +92,10 @@ def solve_beam(dim, elem, timo, A, b, dynamic=False):
         # tip load: transverse force along the local y axis and an axial force, plus (3-D) a force along local z
         F = A @ (np.array([0.5, 0.3, 0.2]) if dim == 3 else np.array([0.5, 0.3, 0.0]))  # the moved load
         fu = ["x", "y", "z"][:dim] if dim > 1 else ["x"]
-        sim.add_neumann(tip, list(F[: len(fu)]), fu)
+        if form["load"] == "tip":
+            sim.add_neumann(tip, list(F[: len(fu)]), fu)
+        else:  # the same vector as a force per unit length on the whole member
+            sim.add_lineLoad(sim.mesh.nodes, list(F[: len(fu)]), fu)
         if dynamic:  # one Newmark step from rest: the mass matrix takes part
             sim.rho = 2.0
             sim.Solver_Set_Hyperbolic_Algorithm(dt=0.1)
@@ -105,7 +111,7 @@ def run_case(job):
     A = np.array([[f2(q) for q in row] for row in frame["A"]])
     b = np.array([f2(q) for q in frame["b"]])
     det = f2(frame["det"])
-    key = f"{prob[0]}/{'/'.join(str(p) for p in prob[1:])}/{'+'.join(moves) if moves else 'identity'}"
+    key = f"{prob[0]}/{'/'.join(('-'.join(p.values()) if isinstance(p, dict) else str(p)) for p in prob[1:])}/{'+'.join(moves) if moves else 'identity'}"
     I = np.eye(3)
     try:
         if prob[0] in ("iso", "ortho", "thermal"):
@@ -122,11 +128,13 @@ def run_case(job):
                 viol.append((f"energy/{key}", f"{key}: energy {W1} of the moved problem differs from {W0}", {"frame": frame, "problem": list(prob)}))
         else:
             _, dim, elem, timo = prob[:4]
-            dyn = len(prob) > 4 and prob[4]
+            dyn = len(prob) > 4 and prob[4] is True
+            form = prob[-1] if isinstance(prob[-1], dict) else None
             if dim == 2 and not inplane(A, b):
                 return None
-            u0, s0, t0, y0 = solve_beam(dim, elem, timo, I, np.zeros(3), dyn)
-            u1, s1, t1, y1 = solve_beam(dim, elem, timo, A, b, dyn)
+            # the baseline is the plain form in the identity frame: the form of the axes / of the load may not matter either
+            u0, s0, t0, y0 = solve_beam(dim, elem, timo, I, np.zeros(3), dyn, {"yaxis": "perp", "load": (form or {}).get("load", "tip")})
+            u1, s1, t1, y1 = solve_beam(dim, elem, timo, A, b, dyn, form)
             if dim == 2:
                 d0, r0 = u0[:, :2], u0[:, 2]
                 d1, r1 = u1[:, :2], u1[:, 2]
@@ -147,7 +155,7 @@ def run_case(job):
         import traceback
 
         viol.append((f"raises/{key}", f"{key}: {type(ex).__name__}: {ex} | {traceback.format_exc()[-300:]}", {"frame": frame, "problem": list(prob)}))
-    return {"viol": viol, "n": 1, "keys": [(tuple(prob), tuple(moves))], "traces": 1}
+    return {"viol": viol, "n": 1, "keys": [(tuple(tuple(p.items()) if isinstance(p, dict) else p for p in prob), tuple(moves))], "traces": 1}
 
 
 def run(ctx):
@@ -159,6 +167,13 @@ def run(ctx):
              ("beam", 2, "SEG2", False, True), ("beam", 3, "SEG3", False, True), ("beam", 3, "SEG2", True, True)]   # last flag: one dynamic step (mass matrix)
     if ctx.thorough:
         probs += [("ortho", 2, "TRI10", False), ("ortho", 3, "TETRA10", False), ("iso", 3, "PRISM6", True), ("beam", 2, "SEG4", False), ("beam", 3, "SEG5", False), ("beam", 3, "SEG4", True)]
+    # the forms of Beam problems (FrameIndiff.tla: BeamForms) multiply the static beam problems
+    forms = sorted((res.prints.get("FORMS") or [[]])[0], key=lambda f: (f["yaxis"], f["load"]))
+    if len(forms) != 4:
+        from harness.core import MachineryError
+
+        raise MachineryError(f"FrameIndiff did not emit the beam forms: {forms}")
+    probs = [p for p in probs if p[0] != "beam"] + [p for p in probs if p[0] == "beam" and len(p) > 4] + [tuple(p) + (f,) for p in probs if p[0] == "beam" and len(p) == 4 for f in forms]
     jobs = [(i, f, p) for i, f in enumerate(frames) for p in probs]
     ctx.pmap(run_case, jobs, chunksize=1)
     ctx.section("replay", frames=len(frames), problems=[list(p) for p in probs])
